@@ -43,12 +43,24 @@ package types
 //@ trusted
 //@ ensures err == nil ==> result == routeOf(t)
 
-// UpdatePrices merges the new prices into the remembered list by signal id (map-indexed loops: body not verified)
+// C08: UpdatePrices merges the new prices into the remembered list BY SIGNAL ID: an entry of the table is only ever
+// overwritten by a price for the SAME signal (so no signal loses its last-sent price and looks infinitely deviated next
+// block), the table never shrinks, entries for signals that are not in the packet are untouched, and every price of the
+// packet ends up in the table. (`mergedPrices` merely names the resulting list for the callers' contracts.)
 //@ spec mergedPrices(oldp []feedstypes.Price, newp []feedstypes.Price) []feedstypes.Price uninterpreted
+//@ spec inPrices(ps []feedstypes.Price, id Str) Bool = exists j :: 0 <= j && j < len(ps) && ps[j].SignalID == id
 //@ func (l *LatestPrices) UpdatePrices
-//@ trusted
 //@ modifies l
-//@ ensures l.TunnelID == old(l.TunnelID) && l.LastInterval == old(l.LastInterval) && l.Prices == mergedPrices(old(l.Prices), newPrices)
+//@ names l.Prices == mergedPrices(old(l.Prices), newPrices)
+//@ ensures l.TunnelID == old(l.TunnelID) && l.LastInterval == old(l.LastInterval)
+//@ ensures len(l.Prices) >= len(old(l.Prices)) && (forall r :: 0 <= r && r < len(old(l.Prices)) ==> l.Prices[r].SignalID == old(l.Prices)[r].SignalID)
+//@ ensures forall r :: 0 <= r && r < len(old(l.Prices)) && !inPrices(newPrices, old(l.Prices)[r].SignalID) ==> l.Prices[r] == old(l.Prices)[r]
+//@ loop 0: invariant forall s Str :: has(pricesIndex, s) ==> 0 <= pricesIndex[s] && pricesIndex[s] < #i && l.Prices[pricesIndex[s]].SignalID == s
+//@ loop 0: invariant l.Prices == old(l.Prices) && l.TunnelID == old(l.TunnelID) && l.LastInterval == old(l.LastInterval)
+//@ loop 1: invariant l.TunnelID == old(l.TunnelID) && l.LastInterval == old(l.LastInterval)
+//@ loop 1: invariant forall s Str :: has(pricesIndex, s) ==> 0 <= pricesIndex[s] && pricesIndex[s] < len(l.Prices) && l.Prices[pricesIndex[s]].SignalID == s
+//@ loop 1: invariant len(l.Prices) >= len(old(l.Prices)) && (forall r :: 0 <= r && r < len(old(l.Prices)) ==> l.Prices[r].SignalID == old(l.Prices)[r].SignalID)
+//@ loop 1: invariant forall r :: 0 <= r && r < len(old(l.Prices)) && !(exists j :: 0 <= j && j < #i && newPrices[j].SignalID == old(l.Prices)[r].SignalID) ==> l.Prices[r] == old(l.Prices)[r]
 
 // the signal ids of a tunnel, in the order of its deviation specs
 //@ func (t Tunnel) GetSignalIDs
@@ -79,3 +91,9 @@ package types
 //@ assert after tssPacket: err == nil && tssPacket.Sequence == sequence && tssPacket.CreatedAt == createdAt
 //@ assert after tssPacket#2: err == nil && tssPacket.Sequence == sequence && tssPacket.CreatedAt == createdAt
 //@ ensures err == nil ==> (encoder == feedstypes.ENCODER_FIXED_POINT_ABI || encoder == feedstypes.ENCODER_TICK_ABI)
+
+// packing the route's receipt into the packet (protobuf Any): only the receipt field changes
+//@ func (p *Packet) SetReceipt
+//@ trusted
+//@ modifies p
+//@ ensures p.TunnelID == old(p.TunnelID) && p.Sequence == old(p.Sequence) && p.Prices == old(p.Prices)
